@@ -87,6 +87,18 @@ def gen_cases(tier, seed):
                           'app': 'writer', 'chunk': 'all',
                           'force': [w, 0], 'cseed': 7})
 
+    # same, reached through the dropbear off-by-one workaround: a peer that
+    # calls itself dropbear, negotiates compression and announces size 1
+    for t, role in (('session_extreme_pkt', 'server'),
+                    ('srv_confirm_extreme', 'client')):
+        for cmpalg in ('zlib@openssh.com',):
+            cases.append({'kind': 'peer', 'template': t, 'role': role,
+                          'app': 'writer', 'chunk': 'all',
+                          'force': [2097152, 1],
+                          'peer_kw': {'version': 'SSH-2.0-dropbear_2020.81',
+                                      'cmp': cmpalg},
+                          'cseed': 8})
+
     templates = sorted(PEER_TEMPLATES)
     for i in range(npeer):
         t = templates[i % len(templates)]
@@ -558,6 +570,15 @@ async def _writer_app(process):
     process.exit(0)
 
 
+def _peer_kw(case):
+    kw = dict(case.get('peer_kw') or {})
+    if 'version' in kw:
+        kw['version'] = kw['version'].encode()
+    if 'cmp' in kw:
+        kw['cmp'] = [kw['cmp'].encode()]
+    return kw
+
+
 def _run_peer(case, mon, viol, info):
     rng = random.Random(case['cseed'])
     role, builder = PEER_TEMPLATES[case['template']]
@@ -581,7 +602,7 @@ def _run_peer(case, mon, viol, info):
                                                  agent_forwarding=True)
                                 ) as env:
                 by = await env.connect()
-                peer = await hostile.ref_client(env.wire)
+                peer = await hostile.ref_client(env.wire, **_peer_kw(case))
                 ch = await hostile.ref_client_exec(peer)
                 await env.settle()
                 env.hostile_dir = 'c2s'
@@ -632,7 +653,7 @@ def _run_peer(case, mon, viol, info):
                 by = await env.connect()
                 wire2 = env.wire
                 env.acceptor.close()
-                srv = hostile.RefServerScript(wire2)
+                srv = hostile.RefServerScript(wire2, **_peer_kw(case))
                 await srv.listen()
                 peer = srv.peer
                 msgs, meta = builder(rng, {'remote_id': 0,
@@ -665,7 +686,7 @@ def _run_peer(case, mon, viol, info):
                         return
                     await peer.recv(R.MSG_USERAUTH_REQUEST)
                     peer.send(bytes([R.MSG_USERAUTH_SUCCESS]))
-                    peer.authed = True
+                    peer._auth_done()
                     # wait for the client's session open
                     p = await peer.recv(R.MSG_CHANNEL_OPEN,
                                         skip=(R.MSG_GLOBAL_REQUEST,))
@@ -727,7 +748,8 @@ def _run_peer(case, mon, viol, info):
                                            f'connect()/run() still pending '
                                            f'after the server closed'})
                     ct.cancel()
-                await asyncio.gather(ct, st, return_exceptions=True)
+                rr = await asyncio.gather(ct, st, return_exceptions=True)
+                info['client_result'] = repr(rr)[:300]
                 if 'conn' in result:
                     result['conn'].abort()
                 await env.settle()
@@ -992,7 +1014,10 @@ def run_case(case):
         viol.append({'mechanism': 'hang', 'detail': str(exc)})
     except work.WorkBudgetExceeded:
         mech = 'work_budget_exceeded'
-        if info.get('maxpkt') == 0 or (
+        if case.get('peer_kw') and 1 in (info.get('maxpkt'),
+                                         info.get('confirm_maxpkt')):
+            mech = 'zero_max_packet_size_spin_dropbear_workaround'
+        elif info.get('maxpkt') == 0 or (
                 case.get('template') == 'srv_confirm_extreme' and
                 info.get('confirm_maxpkt') == 0):
             mech = 'zero_max_packet_size_spin'
